@@ -670,6 +670,22 @@ example : (run c1 (init c1) [.start, .term]).phase = .terminated ∧
     (run c1 (run c1 (init c1) [.start, .term]) [.renew none true, .start, .tick 1, .apo]).phase = .terminated := by
   decide
 
+/-- `max_operations` re-assigned on a live lifecycle (outside the quantifier: configurations are fixed at construction):
+    RAISING it keeps the length within the bounds of the new configuration, at the re-assignment and after every later
+    call. -/
+theorem c09_raising_max_operations_keeps_bounds (cfg cfg' : Cfg) (s : State) (h : WF cfg s)
+    (hm : cfg.maxOps ≤ cfg'.maxOps) : WF cfg' s ∧ ∀ ops, WF cfg' (run cfg' s ops) := by
+  have h' : WF cfg' s := ⟨h.1, Int.le_trans h.2 (Int.ofNat_le.mpr hm)⟩
+  exact ⟨h', fun ops => wf_run cfg' ops s h'⟩
+
+/-- …and LOWERING it below the remaining length is what breaks "length ≤ max" by construction (no method was called) -/
+theorem c09_lowering_max_operations_witness :
+    WF ⟨5, 3, true, none, none⟩ (init ⟨5, 3, true, none, none⟩) ∧
+    ¬ WF ⟨2, 3, true, none, none⟩ (init ⟨5, 3, true, none, none⟩) := by
+  constructor
+  · exact wf_init _
+  · intro h; exact absurd h.2 (by decide)
+
 /-! ## A callback that calls back into the lifecycle (auto-renewal)
 
 Outside the property's assumption "callbacks do not call back".  `stepRe` models the nine methods under an
